@@ -31,3 +31,24 @@ func scribbleValue(fv reflect.Value) {
 		}
 	}
 }
+
+// newSlicePtr returns a pointer to a nil slice of the given model pointer type (for List).
+func newSlicePtr(ptrType reflect.Type) interface{} {
+	return reflect.New(reflect.SliceOf(ptrType)).Interface()
+}
+
+// forEachElem calls f for every element of the slice behind p.
+func forEachElem(p interface{}, f func(interface{})) {
+	s := reflect.ValueOf(p).Elem()
+	for i := 0; i < s.Len(); i++ {
+		f(s.Index(i).Interface())
+	}
+}
+
+// makePredicate builds a func(*T) bool for a run-time model type.
+func makePredicate(ptrType reflect.Type, f func(interface{}) bool) interface{} {
+	ft := reflect.FuncOf([]reflect.Type{ptrType}, []reflect.Type{reflect.TypeOf(true)}, false)
+	return reflect.MakeFunc(ft, func(args []reflect.Value) []reflect.Value {
+		return []reflect.Value{reflect.ValueOf(f(args[0].Interface()))}
+	}).Interface()
+}
